@@ -23,10 +23,17 @@ SPEC = dict(
                 "path), a returned misbehaviour report did blacklist, a peer is in the general pool only if a discovery add / an announcement of a "
                 "hash whose confirmation has begun has begun; and the blacklist test in removeIfUnreachable is necessary: for the variant that "
                 "tests nodes.has only, the theorem is refuted by the schedule 'discovery add between nodes.remove and BlockPeer'. "
-                "All three models are re-validated against the real pool / real Manager on every run: ~900 sequential operation sequences, each "
+                "(5) Cool-down timer at LOCK GRANULARITY (Peers/PoolFine.v): one expiry is split into the timer goroutine's critical sections "
+                "(take the queue mutex | one scan iteration of releaseUnsafe | the callback pool.afterCooldown under pool.m | release), with remove / "
+                "tryGet / cleanup / clock / waiter steps free to run between any two of them and add / putOnCooldown enabled only while the timer does "
+                "not hold the queue mutex; with the callback under the queue mutex (the code under test) every such history is simulated by a history "
+                "of the pool model, so cooldown_respected and the bookkeeping invariant hold for every interleaving; for the variant 'collect, "
+                "unlock, then call back' cooldown_respected is refuted (remove + add + putOnCooldown between the unlock and the stale callback). "
+                "All models are re-validated against the real pool / real Manager on every run: ~900 sequential operation sequences, each "
                 "manager sequence evaluated by BOTH manager models, plus ~230 schedules in which real Manager calls are parked at named points "
                 "inside the real code (log statements, the gater's datastore write, ClosePeer, the general pool's queue mutex) while other calls "
-                "run. PARTIAL: cleanUp is one step (it holds Manager.lock but reads atomics and peersList unlocked); Go-runtime scheduling below "
+                "run, and ~170 pool schedules in which the real expiry callback is held back (onPop wrapped) while a worker runs pool calls and the "
+                "scheduler records which of them return and which queue up behind the queue mutex. PARTIAL: cleanUp is one step (it holds Manager.lock but reads atomics and peersList unlocked); Go-runtime scheduling below "
                 "lock granularity and data races are not modelled; the harness reaches only the interleavings whose switch points have a hook; "
                 "deadlock freedom rests on the translator's lock graph."),
     rule=("pool sequences: 13 scripted (unit-test scenarios, cool-down/remove/re-add/cool-down, waiters) + 500 random sequences of 8-48 operations over "
@@ -40,6 +47,10 @@ SPEC = dict(
           "4 peers x 4 hashes {start a call and run it to its end or to one of its parking points, resume a parked call to its end or to a later parking "
           "point, age, tick}, at most 3 calls parked, peers biased to the one being blacklisted, blacklisting on in 85%; non-trivial = some call ran "
           "while another was parked and (when blacklisting is on) a blacklisting call happened. "
+          "expiry windows: 11 scripted + 160 random pool sequences of 8-32 operations over 3-5 peers in which, with probability 30% when an item is queued, "
+          "the clock is moved exactly to the head item's deadline and callback number Park of that expiry is parked before pool.afterCooldown while a worker "
+          "runs 1-5 calls {remove, add, putOnCooldown, tryGet; 70% on the expiring peer; 35% the triple remove+add+putOnCooldown}; non-trivial = a callback "
+          "was parked with at least one call run meanwhile. "
           "distinct = distinct Coq case term (events + every returned value + projected final state)."),
     trusted_base=[
         "translator /verif/translators/locks (go/ast+go/types, ~600 lines): extracts mutex events per function, follows same-package calls and function-valued fields bound syntactically (timedQueue.onPop = pool.afterCooldown), may-hold sets over branches/loops; calls leaving the package or going through interfaces/unbound function values are assumed not to re-enter the package's locks (listed in the generated file); locks are identified by declaring type+field (instance-insensitive, RLock = Lock)",
@@ -47,6 +58,7 @@ SPEC = dict(
         "models Peers/Pool.v and Peers/Manager.v hand-written after pool.go, timedqueue.go, manager.go; tied by the correspondence harness (real pool with benbjohnson mock clock injected like timedqueue_test.go; real Manager built like manager_test.go: mocknet host, BasicConnectionGater over a map datastore, real subscribeHeader / subscribeDisconnectedPeers loops fed by scripted subscriptions; one GC round = cleanUp + blacklistPeers as in the GC loop body; pool age = createdAt moved 1h back)",
         "pool steps are atomic because every pool method holds pool.m (and the queue its mutex); Peers/Manager.v treats a whole Manager call as atomic, Peers/Fine.v splits it into its critical sections; the two are tied by evaluating every sequential case in both (no Coq refinement proof between them)",
         "Peers/Fine.v: one step = one critical section as read off manager.go (Manager.lock, pool.m, the gater's RWMutex, the LRU, atomics); cleanUp is a single step; connGater.BlockPeer takes effect atomically when it sets its map (its datastore write before that is a parking point; a failing datastore is not modelled); Network().ClosePeer has no effect on the model",
+        "Peers/PoolFine.v: one timer goroutine at a time; items are trimmed at each scan iteration instead of after the loop (only holders of the queue mutex read the queue); the blocked add / putOnCooldown are 'not enabled' events; harness: the queue's onPop field is wrapped so that one callback parks before pool.afterCooldown, the mock clock is moved exactly to the head item's deadline (one releaseExpired), a single worker goroutine runs the injected calls in order and 'queued up behind the queue mutex' is read off the mutex waiter count",
         "lock-granularity harness: the package variable `log` is replaced by a logger whose zap core calls the scheduler (parking points = log statements of manager.go, matched by message text), the gater's datastore and the host are wrapped (BlockPeer's write, ClosePeer), the scheduler holds the general pool's queue mutex and reads its waiter count to park a call before nodes.add / nodes.putOnCooldown; exactly one call runs at a time; Peer is called with a cancelled context, so its blocking select is exercised only up to 'would wait' (the FWake steps of the model are proved about, not replayed)",
         "Go map iteration order enters the manager model as an explicit event parameter (theorems quantify over it; cases record the order the implementation used)",
         "libp2p host / connection gater / pubsub are mocked or real third-party code, not verified; metrics are off; blacklistedHashes LRU eviction (1024 entries) is not modelled",
